@@ -42,7 +42,56 @@ let pgitem g =
   String.concat " " ([":j"; Printf.sprintf "%x" (List.length it.i_evs)] @ List.map pev it.i_evs
                      @ [(match it.i_ret with None -> "~" | Some (id, off) -> ":r " ^ pn id ^ " " ^ pn off); pbool it.i_warn;
                         pn g.gi_out; pn g.gi_dbl])
+(* environment scenarios: 3 <rf|~> <ra|~> eop*  with eop ::= :mi k | :gi | :ci | :go | :ti | :tr | :a n | :s n | :d k   (coq/C18_ModelE.v)
+   observation = eitem*  with eitem ::= :k <nev> (:A who id sz | :F who id sz | :R id off n)* (~ | :r id off) <warn> *)
+let eop c =
+  match next c with
+  | ":mi" -> EMal (n_tok (next c))
+  | ":gi" -> EPush (n_tok "0")
+  | ":ci" -> EPush (n_tok "1")
+  | ":go" -> EPop
+  | ":ti" -> ETop
+  | ":tr" -> EUntop
+  | ":a" | ":s" -> EAlloc (n_tok (next c))
+  | ":d" -> ERel (nat_tok (next c))
+  | t -> raise (Bad ("eop " ^ t))
+let is_env ts = match ts with "3" :: _ -> true | _ -> false
+let optn c = match next c with "~" -> None | t -> Some (n_tok t)
+let escenario ts =
+  let c = { rest = List.tl ts } in
+  let rf = optn c in
+  let ra = optn c in
+  let rec go acc = if at_end c then List.rev acc else go (eop c :: acc) in
+  { e_rf = rf; e_ra = ra; e_ops = go [] }
+let pxev = function
+  | XA (w, id, sz) -> ":A " ^ pn w ^ " " ^ pn id ^ " " ^ pn sz
+  | XF (w, id, sz) -> ":F " ^ pn w ^ " " ^ pn id ^ " " ^ pn sz
+  | XR (id, off, n) -> ":R " ^ pn id ^ " " ^ pn off ^ " " ^ pn n
+let peitem it =
+  String.concat " " ([":k"; Printf.sprintf "%x" (List.length it.ei_evs)] @ List.map pxev it.ei_evs
+                     @ [(match it.ei_ret with None -> "~" | Some (id, off) -> ":r " ^ pn id ^ " " ^ pn off); pbool it.ei_warn])
+let xev c =
+  match next c with
+  | ":A" -> let w = n_tok (next c) in let id = n_tok (next c) in XA (w, id, n_tok (next c))
+  | ":F" -> let w = n_tok (next c) in let id = n_tok (next c) in XF (w, id, n_tok (next c))
+  | ":R" -> let id = n_tok (next c) in let off = n_tok (next c) in XR (id, off, n_tok (next c))
+  | t -> raise (Bad ("event " ^ t))
+let eitem c =
+  match next c with
+  | ":k" -> let evs = counted c xev in
+            let ret = (match next c with
+                       | "~" -> None
+                       | ":r" -> let id = n_tok (next c) in Some (id, n_tok (next c))
+                       | t -> raise (Bad ("ret " ^ t))) in
+            let w = bool_tok (next c) in
+            { ei_evs = evs; ei_ret = ret; ei_warn = w }
+  | t -> raise (Bad ("eitem " ^ t))
 let run_line ts =
+  if is_env ts then begin
+    let s = escenario ts in
+    if not (evalid s) then raise (Bad "environment scenario is not valid (see evalid in coq/C18_ModelE.v)")
+    else String.concat " " (List.map peitem (erun s))
+  end else
   if is_global ts then begin
     let s = gscenario ts in
     if not (gvalid s) then raise (Bad "installed scenario is not valid (see gvalid in coq/C18_ModelG.v)")
@@ -79,6 +128,13 @@ let gitem c =
             { gi_it = { i_evs = evs; i_ret = ret; i_warn = w }; gi_out = o; gi_dbl = d }
   | t -> raise (Bad ("gitem " ^ t))
 let spec_line ts os =
+  if is_env ts then begin
+    let s = escenario ts in
+    if not (evalid s) then true else
+    let c = { rest = os } in
+    let rec go acc = if at_end c then List.rev acc else go (eitem c :: acc) in
+    espec s (go [])
+  end else
   if is_global ts then begin
     let s = gscenario ts in
     if not (gvalid s) then true else
